@@ -16,7 +16,7 @@ mod checks;
 mod corpus;
 #[cfg(feature = "native")]
 mod engine;
-#[cfg(feature = "native")]
+#[cfg(feature = "capi")]
 mod ffi;
 mod holders;
 mod compose;
